@@ -145,7 +145,7 @@ func scanFields() []fieldSpec {
 	for _, f := range knownFields {
 		add(f)
 	}
-	filepath.Walk("/repo", func(p string, info os.FileInfo, err error) error {
+	filepath.Walk(repoDir(), func(p string, info os.FileInfo, err error) error {
 		if err != nil || info.IsDir() || !strings.HasSuffix(p, ".go") || strings.HasSuffix(p, "_test.go") {
 			return nil
 		}
